@@ -88,6 +88,7 @@ type World struct {
 // execution).
 func New(libAddr string) *World {
 	w := &World{LibAddr: libAddr, flags: map[string]bool{}}
+	ResetSlowCallback()
 	w.NW = vnet.New(libAddr)
 	w.NW.SeqFn = func() int { return len(w.Log) }
 	if e := vrt.Cur(); e != nil {
